@@ -1155,6 +1155,8 @@ val op_exp : (val0 -> val0 m) -> val0 list -> val0 m
 
 val op_mod : (val0 -> val0 m) -> val0 list -> val0 m
 
+val is_bool_val : val0 -> bool
+
 val op_bitwise : (val0 -> val0 m) -> (z -> z -> z) -> val0 list -> val0 m
 
 val op_is_defined : (val0 -> val0 m) -> val0 list -> val0 m
